@@ -33,13 +33,14 @@ K = (
     "pyxform.survey:Survey._validate_uniqueness_of_section_names",
     "pyxform.xls2json:workbook_to_json",
 )
-VOC = [M.TEXT, M.CALC, M.BGROUP, M.EGROUP, M.BREPEAT, M.EREPEAT, M.SELECT_OTHER, M.BREPEAT_COUNT, M.DYN_DEFAULT, M.TRIGGERED, M.BGROUP_TABLE, M.SELECT]
+VOC = [M.TEXT, M.CALC, M.BGROUP, M.EGROUP, M.BREPEAT, M.EREPEAT, M.SELECT_OTHER, M.BREPEAT_COUNT, M.DYN_DEFAULT, M.TRIGGERED, M.BGROUP_TABLE, M.SELECT, M.AUDIT]
 
 
 def closure_seq(kinds, label: str):
     wb = {"survey": M.rows_ext(kinds, label), "choices": M.CHOICES, "survey_header": [dict(M.EXT_HEADER)]}
     try:
         survey, _w, _js = build_survey(wb)
+        survey.validate()  # Survey.to_xml validates before it serialises
         root = survey.xml()
     except PyXFormError:
         return True  # rejected: nothing to check here (C17 decides whether rejection is right)
@@ -47,12 +48,12 @@ def closure_seq(kinds, label: str):
     return True if r is None else r
 
 
-VOCQ = [M.TEXT, M.BGROUP, M.EGROUP, M.BREPEAT_COUNT, M.EREPEAT, M.SELECT_OTHER, M.TRIGGERED]
+VOCQ = [M.TEXT, M.BGROUP, M.EGROUP, M.BREPEAT_COUNT, M.EREPEAT, M.SELECT_OTHER, M.TRIGGERED, M.AUDIT]
 
 
 def c02_seq3(k0: int, i1: int, i2: int, l0: int) -> bool:
     """
-    vpre: 0 <= i2 <= 6
+    vpre: 0 <= i2 <= 7
     vpre: 33 <= l0 <= 126 and l0 != 36
     vpost: _ == True
     """
@@ -63,20 +64,20 @@ specialise(
     "C02",
     "a.closure-seq",
     c02_seq3,
-    {"k0": VOCQ, "i1": list(range(7))},
+    {"k0": VOCQ, "i1": list(range(8))},
     reach_if=lambda fx: fx["i1"] == 0,
     timeout=300,
     kernel=K,
     shims=("S1", "S2", "S3", "S4"),
-    symbolic="one row kind over a 7-kind vocabulary (text, begin/end group, repeat with literal count (_count helper), end repeat, select or_other (_other helper), triggered calculate) and a label tracer with one symbolic character",
-    bounds="row 0 is a text question (trigger source), rows 1-2 fixed per instance, row 3 symbolic: all 7^3 sequences after the first row",
+    symbolic="one row kind over an 8-kind vocabulary (text, begin/end group, repeat with literal count (_count helper), end repeat, select or_other (_other helper), triggered calculate, audit (meta block)) and a label tracer with one symbolic character",
+    bounds="row 0 is a text question (trigger source), rows 1-2 fixed per instance, row 3 symbolic: all 8^3 sequences after the first row",
     weight=40,
 )
 
 
 def c02_seq3full(k0: int, k1: int, i2: int, l0: int) -> bool:
     """
-    vpre: 0 <= i2 <= 11
+    vpre: 0 <= i2 <= 12
     vpre: 33 <= l0 <= 126 and l0 != 36
     vpost: _ == True
     """
@@ -95,6 +96,50 @@ specialise(
     shims=("S1", "S2", "S3", "S4"),
     symbolic="one row kind over the 12-kind vocabulary (text, calculate, begin/end group, begin/end repeat, select or_other, repeat with literal count, dynamic default, triggered calculate, table-list group, select_one) and a label tracer with one symbolic character",
     bounds="rows 1-2 fixed per instance: all 12^3 sequences of length 3 after the first text row",
+    weight=60,
+)
+
+
+# ---- e: entity declarations (meta/entity node, its attributes and their binds) ------------------
+def c02_entities(k1: int, p_id: bool, p_create: bool, p_update: bool, p_label: bool, p_save: bool, l0: int) -> bool:
+    """
+    vpre: 33 <= l0 <= 126 and l0 != 36
+    vpost: _ == True
+    """
+    rows = M.rows_ext([M.TEXT, k1, M.TEXT], S(l0, 66))
+    if p_save:
+        rows[0]["save_to"] = "p1"
+    ent = {"dataset": "ds"}
+    # cells holding a reference are concrete (C lexer); their presence is symbolic
+    if p_label:
+        ent["label"] = "concat(${n0}, 'x')"
+    if p_id:
+        ent["entity_id"] = "${n0}"
+    if p_create:
+        ent["create_if"] = "${n0} != ''"
+    if p_update:
+        ent["update_if"] = "${n0} = 'u'"
+    wb = {"survey": rows, "choices": M.CHOICES, "entities": [ent]}
+    try:
+        survey, _w, _js = build_survey(wb)
+        survey.validate()
+        root = survey.xml()
+    except PyXFormError:
+        return True
+    r = M.closure_violation(root)
+    return True if r is None else r
+
+
+specialise(
+    "C02",
+    "e.closure-entities",
+    c02_entities,
+    {"k1": [M.TEXT, M.AUDIT, M.TRIGGERED]},
+    timeout=400,
+    kernel=K + ("pyxform.entities.entity_declaration:EntityDeclaration.xml_instance", "pyxform.entities.entity_declaration:EntityDeclaration.xml_bindings", "pyxform.entities.entities_parsing:get_entity_declaration"),
+    shims=("S1", "S2", "S3", "S4"),
+    symbolic="presence of the entities-sheet cells label, entity_id, create_if, update_if and of a save_to cell (5 symbolic booleans: every create / update / upsert declaration), a label tracer character",
+    bounds="one entity declaration next to 3 survey rows (middle row kind fixed per instance); every bind of the meta/entity block, including attribute binds (/@id, /@baseVersion, ...), must name exactly one node or attribute of the primary instance",
     weight=60,
 )
 
